@@ -624,8 +624,10 @@ fn parse_case(t: &[&str]) -> Option<Case> {
         if j <= c || strat != Strat::User || any_pre {
             return None;
         }
-        let stateless = |s: &Option<Vec<Step>>| s.as_ref().map(|v| v.len() == 1 && v[0].rep != Rep::Rst).unwrap_or(true);
-        if !srvs.iter().all(|s| stateless(&s.udp) && stateless(&s.tcp)) {
+        let ok = |s: &Option<Vec<Step>>, tcp: bool| {
+            s.as_ref().map(|v| v.len() == 1 && v[0].rep != Rep::Rst && !(tcp && matches!(v[0].rep, Rep::Tc | Rep::Cm))).unwrap_or(true)
+        };
+        if !srvs.iter().all(|s| (s.udp.is_none() || s.tcp.is_none()) && ok(&s.udp, false) && ok(&s.tcp, true)) {
             return None;
         }
     }
@@ -804,14 +806,14 @@ fn run_case(c: &Case) -> Result<RunOut, String> {
             let pool2 = pool.clone();
             let req2 = req.clone();
             let branch0 = async move {
-                let creator = match future::select(c0, VSleep::until(tc * 1000)).await {
+                let creator = match future::select(c0, VSleep::until(tc * 1000 + 500)).await {
                     Either::Left((r, _)) => Some((r.0, r.1)),
                     Either::Right((_, c0)) => {
                         drop(c0);
                         None
                     }
                 };
-                VSleep::until(tj * 1000).await;
+                VSleep::until(tj * 1000 + 500).await;
                 let r = pool2.send(req2).first_answer().await;
                 (creator, (classify(&r), sim_now()))
             };
@@ -837,6 +839,8 @@ fn log_tok(log: &[Ex], times: bool) -> String {
     if log.is_empty() {
         return "-".into();
     }
+    let mut log: Vec<&Ex> = log.iter().collect();
+    log.sort_by_key(|e| (e.start_us, e.srv, e.tcp));
     log.iter()
         .map(|e| {
             if times {
@@ -860,6 +864,19 @@ fn comparable(c: &Case) -> bool {
         if w.len() != c.srvs.len() {
             return false;
         }
+    }
+    let batch1 = c.ncr.max(1) == 1 || c.srvs.len() == 1;
+    let steps = || c.srvs.iter().flat_map(all_steps);
+    // a zero-latency reply completes inside the poll that started it: the other members of the batch
+    // have not been started yet, and a second caller is not concurrent with a lookup that is already over
+    if steps().any(|st| st.lat_ms == 0) && !(batch1 && c.k == 1) {
+        return false;
+    }
+    // reconnect-and-retry inside a batch of several servers: start of the retry vs replies of the
+    // others is decided by timer order on ties
+    let reuse_possible = c.srvs.iter().any(|s| s.pre_udp || s.pre_tcp || (s.tcp.is_some() && all_steps(s).any(|st| matches!(st.rep, Rep::Tc | Rep::Cm))));
+    if steps().any(|st| st.rep == Rep::Rst) && reuse_possible && !batch1 {
+        return false;
     }
     true
 }
@@ -897,10 +914,18 @@ fn robust(c: &Case, o: &RunOut) -> bool {
             return false;
         }
     }
-    // replies racing each other
-    let mut ends: Vec<u64> = o.log.iter().filter_map(|e| e.end_us).collect();
-    ends.sort();
-    ends.windows(2).all(|w| w[1] - w[0] >= M_US || w[1] == w[0] && false)
+    // replies racing each other: two exchanges in flight at the same time must not end close together
+    for (i, a) in o.log.iter().enumerate() {
+        for bb in &o.log[i + 1..] {
+            if let (Some(ea), Some(eb)) = (a.end_us, bb.end_us) {
+                let overlap = a.start_us <= eb && bb.start_us <= ea;
+                if overlap && ea.abs_diff(eb) < M_US {
+                    return false;
+                }
+            }
+        }
+    }
+    true
 }
 
 pub fn exec(line: &str, rec: &mut Recorder) {
@@ -1053,11 +1078,12 @@ fn oracle(c: &Case, o: &RunOut, valid: bool, idx: usize, rec: &mut Recorder) {
     }
 
     // (3) concurrent identical queries share one upstream exchange and all receive its result
-    if c.cx.is_none() && c.k > 1 {
+    if c.cx.is_none() && c.k > 1 && comparable(c) && o.callers[0].1 > 0 {
         if !o.callers.iter().all(|x| x.0 == o.callers[0].0) {
             rec.fail(idx, "concurrent identical queries received different results", "");
         }
         if !c.paced {
+            // (callers that arrive while the first lookup is in flight: completion time > 0)
             let mut c1 = c.clone();
             c1.k = 1;
             match catch(|| run_case(&c1)) {
@@ -1145,13 +1171,16 @@ fn oracle(c: &Case, o: &RunOut, valid: bool, idx: usize, rec: &mut Recorder) {
     //     Evaluated when every server is either healthy (its first reply is a positive answer, or a
     //     truncated UDP reply followed by a positive TCP answer) or suffers only transport faults
     //     (unreachable / reset / timeout / busy-then-anything), or answers an untrusted NXDOMAIN.
-    let healthy = |s: &Srv| match first_rep(s) {
-        Rep::Ans => true,
-        Rep::Tc => s.udp.is_some() && s.tcp.as_ref().map(|t| t[0].rep == Rep::Ans).unwrap_or(false) && !s.pre_tcp,
-        _ => false,
+    let all_ans = |v: &Option<Vec<Step>>| v.as_ref().map(|v| v.iter().all(|st| st.rep == Rep::Ans)).unwrap_or(true);
+    let healthy = |s: &Srv| {
+        (all_ans(&s.udp) && all_ans(&s.tcp))
+            || (s.tcp.is_some() && all_ans(&s.tcp) && s.udp.as_ref().map(|v| v.iter().all(|st| st.rep == Rep::Tc)).unwrap_or(false))
     };
-    let faulty_only = |s: &Srv| all_steps(s).all(|st| st.rep.is_fault() || st.rep == Rep::Ans || (st.rep == Rep::Nx && !s.trust));
-    let in_scope = c.srvs.iter().all(|s| healthy(s) || (faulty_only(s) && first_rep(s) != Rep::Ans));
+    let impaired = |s: &Srv| {
+        let okstep = |st: &Step, udp: bool| st.rep.is_fault() || st.rep == Rep::Ans || (st.rep == Rep::Nx && !s.trust) || (udp && st.rep == Rep::Tc && s.tcp.is_some());
+        s.udp.iter().flatten().all(|st| okstep(st, true)) && s.tcp.iter().flatten().all(|st| okstep(st, false))
+    };
+    let in_scope = c.srvs.iter().all(|s| healthy(s) || impaired(s));
     let any_healthy = c.srvs.iter().any(healthy);
     if in_scope && any_healthy {
         // generous budget: every scripted step of every server one after the other + all back-offs
@@ -1313,7 +1342,7 @@ fn random_a(o: &Opts, rec: &mut Recorder) {
         let use_pre = !cancel && strat != Strat::Rr && r.chance(1, 5);
         let srvs: Vec<Srv> = (0..n)
             .map(|i| {
-                let av = r.below(4);
+                let av = if cancel { r.below(2) * 2 } else { r.below(4) };
                 let mut udp = if av != 2 { Some(gen_script(&mut r, &mut lats, false)) } else { None };
                 let mut tcp = if av >= 1 { Some(gen_script(&mut r, &mut lats, true)) } else { None };
                 if cancel {
@@ -1382,9 +1411,9 @@ fn gen_b(o: &Opts) -> Vec<String> {
         // single server that never answers: completion at its own timeout = T (+ε), no overrun
         v.push(mk(Strat::User, 2, t, 1, vec![udp_only(vec![st(Rep::To, t)], true)]));
         // b3: everybody busy: back-off 20,40,80,… capped by the remaining budget → Timeout at T
-        v.push(mk(Strat::User, 2, 105, 1, vec![udp_only(vec![st(Rep::Busy, 0)], true), udp_only(vec![st(Rep::Busy, 0)], true)]));
+        v.push(mk(Strat::User, 2, 105, 1, vec![udp_only(vec![st(Rep::Busy, 1)], true)]));
         // back-off exhausted before the deadline (20+40+80+160 = 300 ms < T)
-        v.push(mk(Strat::User, 2, 420, 1, vec![udp_only(vec![st(Rep::Busy, 0)], true)]));
+        v.push(mk(Strat::User, 2, 420, 1, vec![udp_only(vec![st(Rep::Busy, 1)], true)]));
         // busy then answer after the first back-off
         v.push(mk(Strat::Rr, 1, t, 2, vec![udp_only(vec![st(Rep::Busy, g), st(Rep::Ans, 2 * g)], true), udp_only(vec![st(Rep::Io, 3 * g)], true)]));
         // parallel batch: the slow member keeps the round open across the deadline
